@@ -44,6 +44,25 @@ RACE_FUNCS_FALLBACK = {
 }
 ORPHAN = "C04-orphaned-out-of-order-list"
 REENTRY = "C04-reentrant-engine-rlock"
+WGPANIC = "C04-close-waitgroup-reuse-panic"
+STALE = "C04-stale-overwrite-in-flush-window"
+
+
+def in_stale_signature(f, o):
+    """stress: a `stale-value` report for a row that was an overwrite / late row when written (sig ooo-row), from a query
+    that overlapped a flush (a forced flush was running when it started or ended, or one completed in between), in a round
+    that lost no in-order row"""
+    if f.get("kind") != "stale-value" or f.get("sig") != "ooo-row" or o.get("n_in_order_lost", 0) != 0:
+        return False
+    m = re.search(r"flush gen (\d+)\.\.(\d+) flushing (true|false)\.\.(true|false)", f.get("detail", ""))
+    return bool(m and (m.group(1) != m.group(2) or "true" in (m.group(3), m.group(4))))
+
+
+def in_wgpanic_signature(text):
+    """process crash `sync: WaitGroup is reused before previous Wait has returned` raised by sync.(*WaitGroup).Wait
+    called from immutable.(*MmsTables).Wait (DisableCompAndMerge / Close waiting for merges while one registers)"""
+    m = re.search(r"panic: sync: WaitGroup is reused before previous Wait has returned(.*?)(?:\n\n|\Z)", text, re.S)
+    return bool(m and re.search(r"sync\.\(\*WaitGroup\)\.Wait\([^\n]*\n[^\n]*\n[^\n]*immutable\.\(\*MmsTables\)\.Wait\(", m.group(1)))
 # engine / partition level (coq/C04/Eng.v, harness/cmd/c04/eng.go): operations by the names of the harness -> EngCorr.opname
 ENG_OPS = [("query", "Oquery"), ("write", "Owrite"), ("raftlookup", None), ("dropmst", "Odropmst"), ("delmst", "Odelmst"),
            ("flush", "Oflush"), ("dropdb", "Odropdb"), ("close", "Oclose"), ("delshard", "Odelshard")]
@@ -76,6 +95,7 @@ BG = {"sys": [("W", [5, 3]), ("B", 1), ("F", 1), ("R", 1)],
       "scheds": [[0, 0, 1, -3, 0, 0, 1, 1, 1, 2, 2, 2, 2, 3, 3, 3, 3, 3],
                  [0, 0, 1, 1, -3, 1, 1, 0, 0, 2, 2, 2, 2, 3, 3, 3, 3, 3],
                  [0, 0, 1, 1, 1, -3, 0, 0, 3, 3, 3, 3, 3, 1, 2, 2, 2, 2]]}
+OW = {"OW1": [("W", [5, 1005]), ("F", 1), ("R", 1)], "OW2": [("W", [5, 1005]), ("F", 2), ("R", 1)]}
 MFA = {"sys": [("W", [5, 3, 4]), ("F", 3), ("M",), ("A", 1)]}   # family MF again with an aggregate reader
 WITNESS = {"sys": [("W", [5, 3, 4]), ("F", 3), ("M",), ("R", 1)],
            "sched": [0, 0, 1, 1, 1, 1, 0, 0, 1, 1, 1, 1, 0, 0, 1, 1, 2, 2, 2, 1, 1, 3, 3, 3, 3, 3]}
@@ -206,6 +226,41 @@ def sched_oracle(specs, sched, results):
         if miss:
             fails.append((r, q, "misses acknowledged batch(es) %s" % miss))
     return fails
+
+
+def ow_oracle(specs, sched, results):
+    """DIRECT ORACLE of family OW (one point, time 5, written with value 5 and then 1005): a query that starts after the
+    second write returned must show 1005; one that starts after the first must show 5 or (if the second write happened
+    before it ended) 1005; never both, never a torn row.  Returns a description of the failure or None."""
+    cnt = {}
+    acked = []
+    start = end = None
+    reader = None
+    for i in sched:
+        k = cnt.get(i, 0)
+        cnt[i] = k + 1
+        kind = specs[i][0]
+        if kind == "W" and k % 2 == 0:
+            acked.append(specs[i][1][k // 2])
+        elif kind == "R" and k % 5 == 0 and start is None:
+            start, reader = list(acked), i
+        elif kind == "R" and k % 5 == 4 and end is None:
+            end = list(acked)
+    if start is None:
+        return None
+    res = results.get(str(reader)) or []
+    if not res:
+        return None
+    r = sorted(res[0] or [])
+    if 1005 in start:
+        ok = r == [1005]
+    elif 5 in start:
+        ok = r == [5] or (r == [1005] and 1005 in (end or []))
+    else:
+        ok = r in ([], [5]) or (r == [1005] and 1005 in (end or []))
+    if ok:
+        return None
+    return "the query returned value(s) %s for the point; writes returned before it started: %s, before it ended: %s" % (r, start, end)
 
 
 def in_orphan_signature(specs, sched):
@@ -346,6 +401,27 @@ def race_object(text):
     return best[2] if best else None
 
 
+def go_build_race(ck):
+    """the -race stress binary, built WITHOUT inlining (-gcflags=all=-l): the race detector's stacks then name the
+    function that really performs each access (an inlined accessor such as tsspFileReader.Unref would otherwise be
+    attributed to its caller's line, from which the racing object cannot be derived)"""
+    import sys
+    sys.path.insert(0, os.path.join(ck.verif, "lib", "py"))
+    import vlib
+    flags = vlib.ensure_gomod()
+    os.makedirs(os.path.join(ck.build, "bin"), exist_ok=True)
+    outp = os.path.join(ck.build, "bin", "c04-race")
+    cmd = ["go", "build"] + flags + ["-race", "-gcflags=all=-l", "-tags", "verif", "-o", outp, "./cmd/c04"]
+    with vlib.Lock(os.path.join(ck.build, "go-c04-race.lock")):
+        rc, out = vlib.sh(cmd, cwd=vlib.HARNESS, env=vlib.goenv(), timeout=2400)
+    if rc != 0:
+        ck.broken.append("harness build failed: ./cmd/c04 (-race)")
+        ck.log("GO BUILD FAILED ./cmd/c04 -race")
+        ck.log(out[-4000:])
+        return None
+    return outp
+
+
 def race_reports(text):
     reps = []
     for r in text.split("WARNING: DATA RACE")[1:]:
@@ -398,7 +474,7 @@ def classify_race(rep):
     return None
 
 
-def gen_schedules(ck, n_enum, n_walk, rng):
+def gen_schedules(ck, n_enum, n_walk, rng, n_ow=20):
     """ask the Coq machine for schedules: full enumeration of system A (sampled), model-guided random walks else"""
     defs = []
     order = []
@@ -411,6 +487,10 @@ def gen_schedules(ck, n_enum, n_walk, rng):
             cl = "[" + "; ".join(coq_nats(c) for c in choices) + "]"
             defs.append("Definition S_%s := Eval vm_compute in map (walk_sys %s) %s.\nPrint S_%s." % (name, sp, cl, name))
         order.append(name)
+    # family OW (overwrites): a batch b >= 1000 rewrites the point at time b % 1000 with value b; every interleaving the
+    # model enables of {write 5, write 1005} x {1 or 2 flushes} x {one query}; direct oracle only (last write wins)
+    for nm, specs in sorted(OW.items()):
+        defs.append("Definition S_%s := Eval vm_compute in enum_sys [%s] 30.\nPrint S_%s." % (nm, "; ".join(coq_spec(a) for a in specs), nm))
     sp = "[" + "; ".join(coq_spec(a) for a in MF["sys"]) + "]"
     defs.append("Definition S_MF := Eval vm_compute in enum_from %s %s %s 12.\nPrint S_MF."
                 % (sp, coq_nats(MF["prefix"]), coq_nats(MF["allowed"])))
@@ -450,6 +530,18 @@ def gen_schedules(ck, n_enum, n_walk, rng):
                 continue
             seen.add(key)
             cases.append({"sys": name, "specs": specs, "sched": s, "tag": name})
+    for nm, specs in sorted(OW.items()):
+        m = re.search(r"S_%s\s*=\s*(\[.*?\])\s*:\s*list" % nm, out, re.S)
+        ows = parse_nested(m.group(1)) if m else []
+        if len(ows) < 100:
+            ck.broken.append("family %s (overwrite interleavings) was not enumerated: %d schedules" % (nm, len(ows)))
+        pick = set(range(len(ows)))
+        if n_ow < len(ows):
+            pick = set()
+            while len(pick) < n_ow:
+                pick.add(rng.intn(len(ows)))
+        for k in sorted(pick):
+            cases.append({"sys": nm, "specs": specs, "sched": ows[k], "tag": nm, "ow": True})
     m = re.search(r"S_MF\s*=\s*(\[.*?\])\s*:\s*list", out, re.S)
     mf = parse_nested(m.group(1)) if m else []
     if len(mf) < 30:
@@ -745,7 +837,7 @@ def main(ck):
     if ok:
         ck.coq_props(["C04/Props.v", "C04/Mutants.v", "C04/Refuted.v"])
     bin_sched = ck.go_build("./cmd/c04", "c04-sched")
-    bin_race = ck.go_build("./cmd/c04", "c04", race=True)
+    bin_race = go_build_race(ck)
     if not bin_sched or not bin_race:
         return
 
@@ -759,7 +851,7 @@ def main(ck):
             if fn.endswith(".case"):
                 c = json.load(open(os.path.join(corp, fn)))
                 cases.append({"sys": "corpus", "specs": [tuple(a) for a in c["specs"]], "sched": c["sched"], "tag": "corpus:" + fn})
-        cases += gen_schedules(ck, 300 if thorough else 40, 220 if thorough else 20, rng)
+        cases += gen_schedules(ck, 300 if thorough else 40, 220 if thorough else 20, rng, n_ow=10**6 if thorough else 20)
         ck.log("forced schedules:", len(cases))
         outs = run_sched_cases(ck, bin_sched, cases)
         good = []
@@ -790,7 +882,17 @@ def main(ck):
                     ck.broken.append("forced schedule %d (%s) could not be forced on the implementation: %s" % (i, c["tag"], (o.get("err") or "")[:300]))
                     ck.nofail_detail = {"kind": "forced-schedule", "case": {"specs": c["specs"], "sched": c["sched"]}, "harness": o}
                 continue
+            if c.get("ow"):
+                # overwrite family: not comparable with the set-valued model view; direct oracle (last write wins)
+                n_ow_run = getattr(ck, "_c04_ow", 0) + 1
+                ck._c04_ow = n_ow_run
+                why = ow_oracle(c["specs"], c["sched"], c["obs"])
+                if why and len(ck.violations) < 3:
+                    ck.violation({"kind": "direct-oracle", "what": "forced schedule %s (overwrite of one point): %s" % (c["tag"], why),
+                                  "case": {"specs": c["specs"], "sched": c["sched"]}, "views": c["obs"], "trace": o["trace"]})
+                continue
             good.append(i)
+        ck.cov["overwrite_schedules"] = getattr(ck, "_c04_ow", 0)
         # canary of the evaluation + parsing path: 24 copies of an agreeing case with one view falsified must ALL come
         # back as mismatches (long mismatch lists are what Coq's printer wraps)
         src = next((cases[i] for i in good if any(cases[i]["specs"][int(r)][0] == "R" and qs for r, qs in cases[i]["obs"].items())), None)
@@ -880,7 +982,10 @@ def main(ck):
     finished = any(l.startswith("{") and '"kind":"done"' in l for l in out.splitlines())
     if not finished or len(srounds) != rounds:
         m = re.search(r"(panic: .*|fatal error: .*)", out)
-        if m:
+        if m and in_wgpanic_signature(out[out.index(m.group(1)):]) and ck.match_finding(WGPANIC):
+            ck.known_finding(WGPANIC, "the stress process crashed in round %d: %s in MmsTables.Wait (DisableCompAndMerge of a close in flight "
+                                      "while MergeOutOfOrder registered a merge goroutine)" % (len(srounds), m.group(1)))
+        elif m:
             i = out.index(m.group(1))
             ck.violation({"kind": "crash", "what": "the stress process crashed: " + m.group(1), "output": out[i:i + 6000],
                           "rounds_completed": len(srounds)})
@@ -895,6 +1000,12 @@ def main(ck):
         for f in o["failures"]:
             if f["kind"] in LOST_KINDS and f.get("sig") == "ooo-row" and o.get("n_in_order_lost", 0) == 0 and ck.match_finding(ORPHAN):
                 lost_known += 1
+                continue
+            if in_stale_signature(f, o) and ck.match_finding(STALE):
+                stale_known = getattr(ck, "_c04_stale", 0) + 1
+                ck._c04_stale = stale_known
+                if stale_known == 1:
+                    ck.known_finding(STALE, "stress: " + f["detail"][:600])
                 continue
             if (f["kind"] in ("close-deadlock", "post-close-hang") and ck.match_finding(REENTRY)
                     and re.search(r"sync\.\(\*RWMutex\)\.RLock\([^\n]*\n[^\n]*\n[^\n]*\(\*EngineImpl\)\.unrefDBPT\([^\n]*\n[^\n]*\n[^\n]*\(\*EngineImpl\)\.checkAndGetDBPTInfo\(", f["detail"])):
@@ -992,7 +1103,7 @@ def replay(ck):
                     ck.violation({"kind": "direct-oracle", "what": "replayed case: %s" % fails, "case": rp["case"]})
     else:
         ck.log("stress failures depend on the scheduler; re-running the stress round configuration of the replay file")
-        binr = ck.go_build("./cmd/c04", "c04", race=True)
+        binr = go_build_race(ck)
         rc, out = ck.run([binr, "stress", "3", str(rp.get("cfg", {}).get("duration_ms", 9000))], timeout=600,
                          env={"VERIF_SEED": str(rp.get("seed", ck.seed))})
         for l in out.splitlines():
